@@ -13,7 +13,7 @@ export const SIGMA = [
 ];
 export const POSITIONS = ['only', 'beforeExpr', 'afterExpr', 'betweenExpr', 'betweenEl'];
 const HOSTS = ['b', 'fragShort', 'Fragment', 'KeepAlive', 'custom', 'customUpper', 'customUnderscore', 'nsFragment', 'nsKeepAlive'];
-const CONTENT_HOSTS = ['divHtml', 'divInnerHTML', 'pText'];
+const CONTENT_HOSTS = ['divHtml', 'divInnerHTML', 'pText', 'divVSlots', 'keepAliveVSlots'];
 
 function* strings(maxLen) {
   // all sequences over SIGMA of length 1..maxLen
@@ -43,6 +43,8 @@ function hostTag(b, host) {
     case 'nsKeepAlive': b.importNs('vue', 'Vue'); return { kind: 'member', src: 'Vue.KeepAlive', i: b.leaf('Vue.KeepAlive'), fragLike: true };
     case 'divHtml': case 'divInnerHTML': return { kind: 'html', name: 'div', src: 'div' };
     case 'pText': return { kind: 'html', name: 'p', src: 'p' };
+    case 'divVSlots': return { kind: 'html', name: 'div', src: 'div' };
+    case 'keepAliveVSlots': b.importNamed('vue', 'KeepAlive'); return { kind: 'KeepAlive', src: 'KeepAlive', i: b.leaf('KeepAlive') };
     default: throw new Error(host);
   }
 }
@@ -161,6 +163,8 @@ export function* generate({ tier, seed }) {
     // hosts whose content Vue overwrites at run time (v-html / v-text / innerHTML) still receive their written children
     const attrs = [];
     if (host === 'divHtml' || host === 'pText') { const g = b.global({ k: 'str', v: 'H' }); attrs.push({ t: host === 'divHtml' ? 'html' : 'textc', den: { value: { k: 'leaf', i: b.leaf(g) } }, src: `${host === 'divHtml' ? 'v-html' : 'v-text'}={${g}}`, kind: 'html' }); }
+    // v-slots on a host that does not take slots: its children stay an array (what v-slots means there when nothing else is written is left open, so one child is always present)
+    if (host === 'divVSlots' || host === 'keepAliveVSlots') { children.unshift(C.el({ tag: { kind: 'html', name: 'i', src: 'i' }, attrs: [A.attr('id', { k: 'str', raw: 'lead' })], children: [], selfClose: true })); const gs = b.global({ k: 'slots', v: { foo: { k: 'slotfn', id: 'vs.foo' } } }, { log: false }); attrs.push({ t: 'vslots', i: b.leaf(gs), src: `v-slots={${gs}}`, form: 'ident' }); }
     if (host === 'divInnerHTML') { const g = b.global({ k: 'str', v: 'H' }); attrs.push(A.attr('innerHTML', { k: 'leaf', i: b.leaf(g), src: g })); }
     const el = { tag, attrs, children };
     b.addThunk('t0', renderElement(el));
